@@ -273,7 +273,7 @@ def branch_programs():
 
 def generate(ctx):
     rnd = random.Random(ctx.seed)
-    n = int(os.environ.get("VERIF_C17_N", "0")) or (1500 if ctx.quick else 20000)
+    n = int(os.environ.get("VERIF_C17_N", "0")) or (1500 if ctx.quick else 12000)   # 20000 took 6.5 min on a quiet box, 21 min under load 60
     progs = branch_programs()
     seen = {p["src"] for p in progs}
     while len(progs) < n:
